@@ -227,7 +227,7 @@ func (rn *Runner) Update(j int, n World, touch, recreate map[int]bool) string {
 			rn.Head = t.Root
 		}
 	}
-	ev := tl.M{"op": "Update", "j": j, "w": n, "res": res}
+	ev := tl.M{"op": "Update", "j": j, "w": n, "res": res, "kf": ""}
 	if t.Diff != nil {
 		ev["d"] = t.Diff
 	} else {
@@ -296,7 +296,9 @@ func (rn *Runner) Recover(w World) bool {
 }
 
 // Reopen journals the branch up to layer i, closes and opens the database again.
-func (rn *Runner) Reopen(i int) {
+func (rn *Runner) Reopen(i int) { rn.reopen(i, nil) }
+
+func (rn *Runner) reopen(i int, extra tl.M) {
 	roots := rn.ChainRoots()
 	if err := rn.E.Reopen(&roots[i]); err != nil {
 		tl.Fatal("reopen: %v", err)
@@ -307,14 +309,24 @@ func (rn *Runner) Reopen(i int) {
 		tl.Fatal("reopen lost the database")
 	}
 	ev := tl.M{"op": "Reopen", "i": i}
+	for k, v := range extra {
+		ev[k] = v
+	}
 	if _, _, ok := rn.E.PDB.VerifHistChain(rn.Head); !ok {
 		// journal was not restored: observe from the disk layer
 		rn.Head, _, _, _ = rn.E.PDB.VerifHistDisk()
 		ev["lost"] = true
 	}
+	rn.WaitIndexed()
 	rn.observe(ev)
 	rn.Tr.Emit(ev)
 	rn.Sum.Count("Reopen")
+}
+
+// ReopenWithIndex is Reopen with state indexing switched on from now on.
+func (rn *Runner) ReopenWithIndex(i int, on bool) {
+	rn.E.Cfg.Index = on
+	rn.reopen(i, tl.M{"on": on})
 }
 
 // JournalMatches reports whether the stored journal would be accepted at the next open:
